@@ -1033,4 +1033,31 @@ example : (exportTiff (some .u8) true [[1, 2], [3, 300]] [(10, 20), (20, 30)] [(
 example : (exportTiff none false [[1], [2], [3]] [(10, 20), (20, 30)] [(10, 15), (20, 25)]).toOption.map List.length
     = some 2 := by decide +kernel
 
+/-! ## The stack export is the mixin export on the stack's hooks -/
+
+/-- `ImageStack.export_tiff` IS `TiffExport.export_tiff` on what `ImageStack._tiff_frames / _tiff_timestamp_ranges`
+    return (`dtype=None`, no cast): the stack-level model `exportPages` and the mixin-level model `exportTiff` agree,
+    page by page and refusal by refusal — so the mixin theorems (`export_tiff_roundtrip`, …) speak about stacks too. -/
+theorem stack_export_is_mixin_export (s : Stack) (f : File Rat) (rd re : List (Int × Int))
+    (hin : s.inFile f.pages.length = true) (hd : s.ranges f true = some rd) (he : s.ranges f false = some re) :
+    exportTiff none false ((s.visible f).map fun p => (s.roi.apply p.img).flatten) rd re =
+      (exportPages s f).map (List.map toTiff) := by
+  have l1 := ranges_length s f true rd hd
+  have l2 := ranges_length s f false re he
+  unfold exportPages exportTiff framesWritten
+  rw [hin, hd, he]
+  simp only [Bool.not_true, Bool.false_eq_true, if_false]
+  by_cases h0 : rd.length = 0
+  · rw [if_pos h0, if_pos h0]; rfl
+  · rw [if_neg h0, if_neg h0]
+    rw [if_neg (by omega)]
+    simp only [Except.map]
+    rw [zipPages_toTiff, List.map_map]
+    rfl
+
+example :
+    let f : File Rat := ⟨[⟨10, 18, 15, [[0, 1], [2, 3]]⟩, ⟨20, 28, 25, [[4, 5], [6, 7]]⟩], false⟩
+    Stack.ranges ⟨0, 2, 1, ⟨0, 2, 0, 2⟩⟩ f true = some [(10, 18), (20, 28)] ∧
+    Stack.ranges ⟨0, 2, 1, ⟨0, 2, 0, 2⟩⟩ f false = some [(10, 15), (20, 25)] := by decide +kernel
+
 end Verif.C18
